@@ -195,6 +195,7 @@ def install(I, F):
             F.seen_sq.append((deg, r, U["sq"](r)))
             F.axioms.append(z3.Implies(U["leg"](s) != z3.BitVecVal(0xffffffff, 32), U["sq"](r) == s))     # T5
             F.axioms.append(F.canon(deg, r))
+            F.axioms.append(U["sq"](F.neg(deg, r)) == U["sq"](r))                                         # (-y)^2 = y^2
             wr(deg, args[0], r)
         I.add_intercept(C + r"::square\(" + ".*" + r"\)", h_sq, "F%d::square" % deg)
         I.add_intercept(C + r"::multiply\(" + ".*" + r"\)", h_mul, "F%d::multiply" % deg)
@@ -488,6 +489,14 @@ def ob_canonical(which):
         r, mdl = solve(I, list(path.pc) + [rb], ax, z3.Not(z3.And(sr, sx == gx, sy == gy)), "accepted point passed the subgroup test")
         if r == z3.sat:
             raise Violation("checks:%s:subgroup" % which, "validating decode (%s) accepts a point that did not pass the subgroup test" % which, {"encoding": which})
+        # the accepted coordinates satisfy the curve equation (uncompressed: is_on_curve's comparison is on the path; compressed: y = sqrt(x^3 + b) of a residue)
+        U = F.uf[deg]
+        bconst = curve_b(I, deg)
+        eqn = U["sq"](gy) == U["add"](U["mul"](U["sq"](gx), gx), bconst)
+        r, mdl = solve(I, list(path.pc) + [rb], ax, z3.Not(eqn), "accepted point is on the curve")
+        if r == z3.sat:
+            raise Violation("checks:%s:curve" % which, "validating decode (%s) accepts coordinates that were not shown to satisfy y^2 = x^3 + b (a point of another curve "
+                            "can pass the order test: invalid-curve input)" % which, {"encoding": which, "off_curve": True})
     if accepted < 2:
         raise Inconclusive("only %d accepting paths in checked decode" % accepted)
     return {"queries": getattr(I, "vc_count", 0), "paths": npaths, "functions": [P.demangled[enc][:90], P.demangled[dec][:90]],
@@ -501,6 +510,11 @@ def replay_canonical(res):
     counterexamples that decode to the identity are replayed byte for byte."""
     ce = res.counterexample or {}
     from engine import replay
+    if ce.get("off_curve"):
+        out = replay.run(["decoffcurve %s" % ce["encoding"]])[0]
+        ce["native_replay"] = {"command": "decoffcurve %s" % ce["encoding"], "native_output": out,
+                               "meaning": "coordinates (x, y) with y^2 != x^3 + b whose order on their own curve y^2 = x^3 + b' divides r, or failing that any off-curve pair, given to validating decode"}
+        return True if out.startswith("ACCEPTED-OFFCURVE") else None
     if ce.get("weak_subgroup"):
         out = replay.run(["decnonsub %s" % ce["encoding"]])[0]
         ce["native_replay"] = {"command": "decnonsub %s" % ce["encoding"], "native_output": out,
